@@ -147,6 +147,7 @@ def run(pid: str, tier: str, seed: int, selftest=False, replay=None) -> int:
         return [o for o in mod.walk() if isinstance(o, linalg.GenericOp)][0], mod
     cases = []
     keep = []
+    maps = []
     import glob, json
     jobs = []
     base = os.path.join(os.path.dirname(os.path.dirname(os.path.abspath(__file__))), "known", pid)
@@ -185,7 +186,35 @@ def run(pid: str, tier: str, seed: int, selftest=False, replay=None) -> int:
             true_sw = int(abstract.get_true_switches())
         except Exception as e:
             true_sw = -1
-        cases.append({"kind": "pe", "name": name, "abstract": export_pe(abstract), "kernels": [kernel_record(k) for k in ks],
+        # the accelerator built around the merged PE (snax_phs.py): declared switch registers and the values it configures per kernel
+        accrec = {"built": 0, "nswitchfields": 0, "fieldsok": 0, "values": [[] for _ in ks]}
+        if all(d["ok"] for d in decoded) and true_sw >= 0:
+            try:
+                from xdsl.dialects import arith
+                from xdsl.ir.affine import AffineMap
+                from snaxc.accelerators.snax_phs import SNAXPHSAccelerator
+                from snaxc.phs.template_spec import TemplateSpec
+                ident = AffineMap.from_callable(lambda d0: (d0,))
+                acc = SNAXPHSAccelerator(abstract, TemplateSpec((ident,) * ks[0][0], (ident,), (4,)))
+                sw_fields = [f for f in acc.fields if f.startswith("phs_switch_")]
+                pos = [i for i, f in enumerate(acc.fields) if f.startswith("phs_switch_")]
+                fields_ok = (sw_fields == [f"phs_switch_{i}" for i in range(len(sw_fields))] and acc.fields[-1] == "loop_bound_alu"
+                             and pos == list(range(len(acc.streamer_setup_fields), len(acc.streamer_setup_fields) + len(sw_fields)))
+                             and list(acc.fields[:len(acc.streamer_setup_fields)]) == list(acc.streamer_setup_fields))
+                vals = []
+                for kj in ks:
+                    gj, mj = generic_of(kj)
+                    keep.append(mj)
+                    got = acc.get_switch_values(gj)
+                    vals.append([int(o[0][0].value.value.data) if isinstance(o[0][0], arith.ConstantOp) else -99 for o in got])
+                accrec = {"built": 1, "nswitchfields": len(sw_fields), "fieldsok": 1 if fields_ok else 0, "values": vals}
+                if len(maps) < 60:
+                    from checks_regfile import reg_map_case
+                    maps.append(reg_map_case(f"phs:{name}", acc))
+            except Exception as e:
+                rep.violation(name + "|acc", f"SNAXPHSAccelerator raised {type(e).__name__}: {str(e)[:160]}",
+                              {"kernels": [kernel_text(k) for k in ks], "exception": traceback.format_exc(limit=6)})
+        cases.append({"kind": "pe", "name": name, "acc": accrec, "abstract": export_pe(abstract), "kernels": [kernel_record(k) for k in ks],
                       "decoded": [{"ok": d["ok"], "sw": d["sw"]} for d in decoded], "true_switches": true_sw,
                       "text": str(abstract), "ktexts": [kernel_text(k) for k in ks], "errs": [d.get("err", "") for d in decoded]})
     rep.rule = (f"TLC (HistGen.tla) enumerates every merge history of length <= {maxlen} over a per-run library of {nk} kernels (1-3 binary int/float ops, "
@@ -208,4 +237,14 @@ def run(pid: str, tier: str, seed: int, selftest=False, replay=None) -> int:
             if v != "ok":
                 rep.violation(c["name"], f"clause {v} fails; decoded {c['decoded']} true_switches {c['true_switches']} errors {[e for e in c['errs'] if e]}",
                               {"kernels": c["ktexts"], "merged": c["text"], "decoded": c["decoded"], "clause": v})
+    # register maps of the PHS accelerators built above: injective incl. the reserved streamer status registers (C04's map clause)
+    if maps:
+        r, verdicts = run_obj_batch(pid, maps, tag="phsmaps")
+        rep.add_tlc(r)
+        for tid, v in verdicts.items():
+            rep.evaluations += 1
+            if v != "ok":
+                c = maps[tid - 1]
+                rep.violation(c["name"], f"clause {v} fails for the PHS accelerator register map", {"names": c["names"], "addrs": c["addrs"]})
+    rep.extra["phs_accelerators_built"] = sum(1 for c in cases if c["acc"]["built"])
     return rep.finish(known)
